@@ -292,7 +292,11 @@ def c04_safe_ops(ctx, seqrun, stats, divs):
 CHECKS['C04'].extra = c04_safe_ops
 CHECKS['C18'].extra = c18_extra
 # C05 ("neither over- nor under-reports under concurrency"): a thread that only WAITS must not change what the other stages are offered
-CHECKS['C05'].extra = lambda ctx, seqrun, stats, divs: run_waitprobe(ctx, stats)
+CHECKS['C05'].extra = lambda ctx, seqrun, stats, divs: (run_waitprobe(ctx, stats), c18_splitprobe(ctx, seqrun, stats, divs))
+# C01 / C04: the supplied contents of EVERY cell and the state right after every kind of split (stack buffers split again by reference
+# and by value) are part of what the consumer may see / of the order of the stages
+CHECKS['C01'].extra = c18_splitprobe
+CHECKS['C04'].extra = lambda ctx, seqrun, stats, divs: (c04_safe_ops(ctx, seqrun, stats, divs), c18_splitprobe(ctx, seqrun, stats, divs))
 for pid in ('C01', 'C04', 'C05', 'C06', 'C11', 'C12'):
     CHECKS[pid].propfiles = [f'Props/{pid}.v', 'Props/KTie.v']    # K-tie: kernels translated from the source on every run
 for pid in ('C01', 'C05', 'C06'):
@@ -335,6 +339,9 @@ class VariantCheck(SeqCheck):
                         txt = '\n'.join(['# C13: variants disagree', ref[1]] + ref[2][:k] + [f'## step {k - 1}: variant {ref[0]} printed: {ref[3][k] if k < len(ref[3]) else "<missing>"}',
                                          f'## step {k - 1}: variant {v[0]} printed: {v[3][k] if k < len(v[3]) else "<missing>"}', '## second variant:', v[1]])
                         ctx.violation(f'buffer variants {ref[0]} and {v[0]} give different observable results on the same history', txt)
+        if not ctx.violations:
+            # the same contents in every cell whatever the storage (from(array) / from(vec) / default), the same start after every split
+            c18_splitprobe(ctx, seqrun, stats, divs)
         if not ctx.violations:
             self.decide(ctx, divs, not ok, log)
         cov = {'programs': len(groups), 'disagreements_checked': compared,
